@@ -150,17 +150,17 @@ def coq_forbidden_hits():
                 hits.append('%s:%d:%s' % (os.path.basename(f), ln, line.strip()[:80]))
     return hits
 
-def coq_make():
-    """Full .vo build (no -vos); a no-op when up to date."""
+def coq_make(target=None):
+    """Full .vo build (no -vos) of [target] and everything it depends on; a no-op when up to date."""
     if not os.path.exists(os.path.join(COQ, 'Makefile')):
         subprocess.run(['coq_makefile', '-f', '_CoqProject', '-o', 'Makefile'], cwd=COQ, capture_output=True)
-    r = subprocess.run(['timeout', '3000', 'make', '-j%d' % NCPU], cwd=COQ, capture_output=True, text=True)
+    r = subprocess.run(['timeout', '3000', 'make', '-j%d' % NCPU] + ([target] if target else []), cwd=COQ, capture_output=True, text=True)
     return r.returncode == 0, (r.stdout + r.stderr)[-3000:]
 
 def coq_check(prop):
     """Re-check Properties_<prop>.v with coqc; returns dict for the evidence."""
     t0 = time.time()
-    ok, log = coq_make()
+    ok, log = coq_make('theories/Properties_%s.vo' % prop)
     pf = os.path.join(COQ, 'theories', 'Properties_%s.v' % prop)
     res = {'file': 'coq/theories/Properties_%s.v' % prop, 'make_ok': ok, 'theorems': [], 'assumptions': {},
            'axioms': [], 'own_axioms': [], 'forbidden': coq_forbidden_hits(), 'ok': False, 'log': ''}
